@@ -45,25 +45,46 @@ pub const PROGRAMS: &[&str] = &[
     "((((((((((((((((((((((((((((((((((((((((1))))))))))))))))))))))))))))))))))))))))",
     // a registered function that panics: the evaluation fails midway, nothing else may notice
     "x = 4 ; y = boom(x) ; z = 5",
+    // grouping depends on the precedence `plus` is registered with
+    "2 * 3 plus 4",
 ];
 
 /// programs used in the histories that contain a registration
-const REG_PROGRAMS: &[usize] = &[14, 16, 17];
+const REG_PROGRAMS: &[usize] = &[14, 16, 17, 23];
+/// register `plus` (addition, precedence 110)
 const REGISTER: u64 = u64::MAX;
+/// the same registration made by another (spawned and joined) thread
+const REGISTER_T: u64 = u64::MAX - 1;
+/// re-register `plus` as multiplication at precedence 125
+const REREG: u64 = u64::MAX - 2;
+const REREG_T: u64 = u64::MAX - 3;
 
-fn register_plus(world: &mut World) {
+fn is_reg(op: u64) -> bool {
+    op >= REREG_T
+}
+
+fn register_plus(world: &mut World, op: u64) {
     use crate::model::lex::InfixInfo;
     use expression_engine::{InfixOpAssociativity, InfixOpType};
-    expression_engine::register_infix_op(
-        "plus",
-        110,
-        InfixOpType::CALC,
-        InfixOpAssociativity::LEFT,
-        Arc::new(|a, b| Ok(Value::Number(a.decimal()? + b.decimal()?))),
-    );
-    world.ops.infix.insert("plus".into(), InfixInfo { prec: 110, left: true, setter: false });
-    let h: HFn = Arc::new(|a| match (&a[0], &a[1]) {
-        (Value::Number(x), Value::Number(y)) => Ok(Value::Number(x + y)),
+    let mul = op == REREG || op == REREG_T;
+    let prec = if mul { 125 } else { 110 };
+    let reg = move || {
+        expression_engine::register_infix_op(
+            "plus",
+            prec,
+            InfixOpType::CALC,
+            InfixOpAssociativity::LEFT,
+            if mul { Arc::new(|a, b| Ok(Value::Number(a.decimal()? * b.decimal()?))) } else { Arc::new(|a, b| Ok(Value::Number(a.decimal()? + b.decimal()?))) },
+        )
+    };
+    if op == REGISTER_T || op == REREG_T {
+        std::thread::spawn(reg).join().expect("registration thread");
+    } else {
+        reg();
+    }
+    world.ops.infix.insert("plus".into(), InfixInfo { prec, left: true, setter: false });
+    let h: HFn = Arc::new(move |a| match (&a[0], &a[1]) {
+        (Value::Number(x), Value::Number(y)) => Ok(Value::Number(if mul { x * y } else { x + y })),
         _ => Err(eval::EErr::Type),
     });
     world.infix.insert("plus".into(), h);
@@ -78,16 +99,36 @@ fn reg_histories() -> Vec<Vec<u64>> {
         }
     }
     let mut v = vec![vec![REGISTER]];
-    for a in &ops {
-        v.push(vec![REGISTER, *a]);
-        v.push(vec![*a, REGISTER]);
-        for b in &ops {
-            v.push(vec![REGISTER, *a, *b]);
-            v.push(vec![*a, REGISTER, *b]);
-            v.push(vec![*a, *b, REGISTER]);
-            for c in &ops {
-                v.push(vec![*a, REGISTER, *b, *c]);
-                v.push(vec![*a, *b, REGISTER, *c]);
+    for r in [REGISTER, REGISTER_T] {
+        for a in &ops {
+            v.push(vec![r, *a]);
+            v.push(vec![*a, r]);
+            for b in &ops {
+                v.push(vec![r, *a, *b]);
+                v.push(vec![*a, r, *b]);
+                v.push(vec![*a, *b, r]);
+                for c in &ops {
+                    v.push(vec![*a, r, *b, *c]);
+                    v.push(vec![*a, *b, r, *c]);
+                }
+            }
+        }
+    }
+    // a registration followed by a re-registration with another handler and precedence
+    // (same thread / another thread), evaluations before, between and after
+    for (r1, r2) in [(REGISTER, REREG), (REGISTER, REREG_T), (REGISTER_T, REREG), (REGISTER_T, REREG_T)] {
+        v.push(vec![r1, r2]);
+        for a in &ops {
+            v.push(vec![r1, r2, *a]);
+            v.push(vec![r1, *a, r2]);
+            for b in &ops {
+                v.push(vec![r1, *a, r2, *b]);
+                v.push(vec![*a, r1, r2, *b]);
+                if r1 == REGISTER {
+                    for c in &ops {
+                        v.push(vec![*a, r1, *b, r2, *c]);
+                    }
+                }
             }
         }
     }
@@ -101,8 +142,12 @@ fn n_ops() -> u64 {
 }
 
 fn op_text(op: u64) -> String {
-    if op == REGISTER {
-        return "register_infix_op(plus,110,LEFT)".into();
+    match op {
+        REGISTER => return "register_infix_op(plus,110,LEFT,add)".into(),
+        REGISTER_T => return "[other thread] register_infix_op(plus,110,LEFT,add)".into(),
+        REREG => return "register_infix_op(plus,125,LEFT,mul)".into(),
+        REREG_T => return "[other thread] register_infix_op(plus,125,LEFT,mul)".into(),
+        _ => {}
     }
     format!("{}({:?})", KINDS[(op as usize) % KINDS.len()], PROGRAMS[(op as usize) / KINDS.len()])
 }
@@ -187,12 +232,10 @@ fn step(sys: &mut Sys, op: u64, world: &World, model_asts: &[Result<Ast, parse::
             let mut fe = engine_ctx(false);
             let mut fm = model_ctx(false);
             let stored = sys.stored[pi].clone();
-            let er = guarded(|| {
-                let t = match stored {
-                    Some(t) => t,
-                    None => parse_expression(prog).map_err(|e| format!("parse: {:?}", e))?,
-                };
-                t.exec(&mut fe).map_err(|e| format!("{:?}", e))
+            let er = guarded(|| match stored {
+                Some(t) => t.exec(&mut fe).map_err(|e| format!("{:?}", e)),
+                // the public one-call entry point (the context handle is shared with `fe`)
+                None => expression_engine::execute(prog, crate::engine::share(&fe)).map_err(|e| format!("{:?}", e)),
             });
             let mr = match (&sys.stored_model[pi], &model_asts[pi]) {
                 (Some(a), _) => eval::eval(a, &mut fm, world).map_err(|_| ()),
@@ -256,8 +299,8 @@ fn run_history(ops: &[u64], world: &World, model_asts: &[Result<Ast, parse::PErr
     let mut sys = Sys::new();
     let mut before = String::from("nothing");
     for (i, op) in ops.iter().enumerate() {
-        if *op == REGISTER {
-            register_plus(world);
+        if is_reg(*op) {
+            register_plus(world, *op);
             *model_asts = PROGRAMS.iter().map(|p| parse::parse(p, &world.ops)).collect();
             // an AST parsed before the registration keeps its meaning; only new parses change
             snap0 = safe_snapshot();
@@ -301,6 +344,12 @@ fn safe_snapshot() -> Option<expression_engine::verif_hooks::Snapshot> {
     }
 }
 
+/// repetitions in the long histories: above the usual capacity constants (256, 500, 512,
+/// 1000, 1024; thorough: 4096, 65536) so that anything that fills up or leaks per call shows
+fn long_reps(tier: Tier) -> u64 {
+    tier.pick(1100, 66000)
+}
+
 fn depth(tier: Tier) -> u32 {
     tier.pick(3, 4)
 }
@@ -335,8 +384,8 @@ impl Prop for C16 {
         Plan {
             stages: vec![
                 Stage { name: "fresh".into(), len: pairs, chunk: 1, timeout: Duration::from_secs(60), what: "every single operation and every ordered pair of operations as the first engine calls of a fresh process".into() },
-                Stage { name: "registration".into(), len: reg_histories().len() as u64, chunk: 1, timeout: Duration::from_secs(60), what: "histories of <= 4 steps with one register_infix_op at every position, each in a fresh process (a lexeme probed before it becomes an operator must be an operator afterwards)".into() },
-                Stage { name: "long".into(), len: (PROGRAMS.len() * PROGRAMS.len()) as u64, chunk: 40, timeout: Duration::from_secs(600), what: "for every ordered pair (p, q): 100 repetitions of parse(p) / execute(p) followed by every operation on q (capacity / accumulation effects; single long histories, not exhaustive)".into() },
+                Stage { name: "registration".into(), len: reg_histories().len() as u64, chunk: 1, timeout: Duration::from_secs(60), what: "histories of <= 5 steps with one register_infix_op at every position, or a registration followed by a re-registration with another handler and precedence, each made by the calling thread or by another (joined) thread; each history in a fresh process (a lexeme probed before it becomes an operator must be an operator afterwards; nothing remembered from before a registration may survive it)".into() },
+                Stage { name: "long".into(), len: (PROGRAMS.len() * PROGRAMS.len()) as u64, chunk: 40, timeout: Duration::from_secs(600), what: "for every ordered pair (p, q): N repetitions (1100 quick / 66000 thorough) of parse(p) / execute(p) followed by every operation on q (capacity / accumulation effects; single long histories, not exhaustive)".into() },
                 Stage { name: "histories".into(), len: n, chunk: (n / 64).max(500), timeout: Duration::from_secs(1800), what: format!("every history of <= {} operations, in process, no de-duplication", depth(tier)) },
             ],
             rule: format!(
@@ -378,8 +427,8 @@ impl Prop for C16 {
                 out.idx = Some(i);
                 let (p, q) = ((i as usize) / PROGRAMS.len(), (i as usize) % PROGRAMS.len());
                 let mut ops = Vec::new();
-                for r in 0..100 {
-                    ops.push((p * KINDS.len() + (r % 2)) as u64);
+                for r in 0..long_reps(tier) {
+                    ops.push((p * KINDS.len() + (r % 2) as usize) as u64);
                 }
                 for k in 0..KINDS.len() {
                     ops.push((q * KINDS.len() + k) as u64);
@@ -412,7 +461,7 @@ impl Prop for C16 {
     fn case_text(&self, tier: Tier, stage: usize, i: u64) -> String {
         let n = n_ops();
         if stage == 2 {
-            return format!("100 x {:?} then {:?}", PROGRAMS[(i as usize) / PROGRAMS.len()], PROGRAMS[(i as usize) % PROGRAMS.len()]);
+            return format!("{} x {:?} then {:?}", long_reps(tier), PROGRAMS[(i as usize) / PROGRAMS.len()], PROGRAMS[(i as usize) % PROGRAMS.len()]);
         }
         if stage == 1 {
             return reg_histories()[i as usize].iter().map(|o| op_text(*o)).collect::<Vec<_>>().join(" ; ");
